@@ -11,6 +11,7 @@
 //!   "sleep_ms": n                   sleep before exiting
 //!   "steps": [[delay_ms, fd, hex]]  after delay_ms write the bytes to fd 1 / 2 (unbuffered)
 //!   "pre": [[delay_ms, fd, hex, count]]  before the barrier: after delay_ms write the bytes `count` times
+//!   "by_count": [script, ..]        the n-th start of this (command, target) follows the n-th script
 //!   "repeat": [[count, fd, hex]]    after the steps, write the bytes `count` times to fd 1 / 2 (volume)
 //!   "barrier": {"dir": d, "n": k, "timeout_ms": t}
 //!                                   create d/<pid>, wait until d holds >= k entries, else exit 99
@@ -78,6 +79,33 @@ fn main() {
         .iter()
         .find_map(|k| plan.get(k).cloned())
         .unwrap_or(serde_json::Value::Null);
+
+    // "by_count": [script, script, ..]: the n-th start of this (command, target) in this trace
+    // directory follows the n-th script (the last one from then on)
+    let script = match script.get("by_count").and_then(|v| v.as_array()) {
+        Some(list) if !list.is_empty() => {
+            let mut n = 0usize;
+            if let Some(d) = &trace_dir {
+                if let Ok(rd) = std::fs::read_dir(d) {
+                    for e in rd.flatten() {
+                        let name = e.file_name().to_string_lossy().to_string();
+                        if !name.ends_with(".start.json") || name.starts_with('.') {
+                            continue;
+                        }
+                        if let Ok(txt) = std::fs::read_to_string(e.path()) {
+                            if let Ok(v) = serde_json::from_str::<serde_json::Value>(&txt) {
+                                if v["command"] == command.as_str() && v["target"] == target.as_str() {
+                                    n += 1;
+                                }
+                            }
+                        }
+                    }
+                }
+            }
+            list[n.min(list.len() - 1)].clone()
+        }
+        _ => script,
+    };
 
     let argv_hex: Vec<String> = args.iter().skip(1).map(|a| hex(a.as_bytes())).collect();
     if let Some(d) = &trace_dir {
